@@ -2811,6 +2811,7 @@ func (fr *Frame) applyContract(st *State, x *ssa.Call, callee *ssa.Function, fc 
 		}
 	}
 	// havoc modifies
+	var postVals []Val
 	for _, m := range fc.Modifies {
 		n, fi, ok := resolveModPath(callee, m)
 		if !ok {
@@ -2833,8 +2834,17 @@ func (fr *Frame) applyContract(st *State, x *ssa.Call, callee *ssa.Function, fc 
 		for _, f := range c.typeInv(nv, ft, 0) {
 			fr.assume(st, f)
 		}
+		postVals = append(postVals, Val{nv, ft})
 		st.heap[hk] = fmt.Sprintf("(store %s %s %s)", arr, pv.T, nv)
 	}
+	defer func() {
+		// whatever the callee stored into the fields it may modify was allocated by the time it returned
+		for _, pvv := range postVals {
+			for _, rp := range c.refPaths(pvv.T, pvv.Typ, 0) {
+				fr.assume(st, strings.ReplaceAll(rp, "$B", fr.allocTerm(st)))
+			}
+		}
+	}()
 	// result
 	var res []Val
 	if tu, ok := callee.Signature.Results().Underlying().(*types.Tuple); ok {
